@@ -137,7 +137,10 @@ class Analyzer:
         probs = self._get_probs(full_inputs, full_outputs)
         # Calculate performance by finding sum of valid transformations
         self.performance = probs.sum() / len(full_inputs)
-        # Analyse error rate from expected results if specified
+        # Analyse error rate from expected results if specified, removing any
+        # value which remains from a previous call
+        if hasattr(self, "error_rate"):
+            del self.error_rate
         if expected is not None:
             self.error_rate = self._calculate_error_rate(
                 probs, inputs, filtered_outputs, expected
